@@ -483,7 +483,7 @@ class C15(Check):
     }
     required_probes = [
         "in_place_kernel_launch", "launch_on_strided_view", "call_with_overlapping_array_arguments", "more_threads_than_outer_iterations", "policy_permuted", "policy_static", "policy_dynamic",
-        "executor_fidelity_checked_against_compiled_kernel", "thread_differential_ir", "thread_differential_compiled", "repeated_identical_requests", "marker_by_marker_reference", "target_gen", "target_ns2d", "target_ns3d", "target_passive", "target_solver", "target_interaction", "spreading_permuted_prange",
+        "executor_fidelity_checked_against_compiled_kernel", "thread_differential_ir", "thread_differential_compiled", "repeated_identical_requests", "marker_by_marker_reference", "production_sized_grid_compiled_alias_probe", "target_gen", "target_ns2d", "target_ns3d", "target_passive", "target_solver", "target_interaction", "spreading_permuted_prange",
     ]
     tiers = {
         "quick": {"runs": 800, "batch": 6, "timeout": 900},
@@ -508,6 +508,14 @@ class C15(Check):
         if run < n_gen:
             target = "gen"
             gi = run
+        elif (run - n_gen) % 97 == 5:
+            # production-sized grid with the genuinely compiled kernels: only the call-site alias probes run
+            p = {"target": "large", "sched_seed": 0, "sub": prng.sub_seed(rng), "precision": rng.choice(["single", "double"]), "num_threads": rng.choice([1, 4]),
+                 "dim": 2, "shape": list(rng.choice([(1024, 1024), (1040, 1010)])), "with_forcing": rng.random() < 0.5, "free_stream": rng.random() < 0.5, "zone": rng.choice([0, 2, 3]),
+                 "steps": 1, "queries": True, "body": False}
+            if rng.random() < 0.4:
+                p.update({"dim": 3, "shape": list(rng.choice([(64, 64, 128), (128, 72, 96)])), "filter": rng.choice([None, {"type": "multiplicative", "order": 1}]), "poisson": "greens"})
+            return p
         else:
             target = prng.weighted_choice(rng, [("gen", 3), ("ns2d", 3), ("ns3d", 3), ("passive", 1), ("solver", 1), ("interaction", 3)])
             gi = rng.randrange(n_gen)
@@ -544,6 +552,10 @@ class C15(Check):
             if target == "solver" and rng.random() < 0.5:
                 # mid-sized buffers: size/thread-count thresholds sit between tiny and large
                 p["shape"] = list(rng.choice([(40, 48), (24, 32)] if p["dim"] == 2 else [(10, 12, 14)]))
+            if target in ("ns2d", "ns3d") and rng.random() < 0.35:
+                # enough rows for thread-count dependent slab / chunk sizes to differ from the tiny-grid case
+                p["shape"] = list(rng.choice([(40, 36), (33, 48)] if p["dim"] == 2 else [(17, 10, 12), (24, 9, 10)]))
+                p["steps"] = 1
             if target == "passive" and p["dim"] == 2:
                 p["shape"] = list(rng.choice([(18, 16), (10, 12), (13, 11)]))  # row counts not divisible by the thread count
         return p
@@ -572,7 +584,7 @@ class C15(Check):
             _alias.update(enabled=False, res=None)
         res.add_sim("kernel_launches", rt.launches)
         res.add_sim("cell_updates", rt.cells)
-        res.nontrivial = rt.launches > 0 and rt.cells >= 2
+        res.nontrivial = (rt.launches > 0 and rt.cells >= 2) or program["target"] == "large"
 
     # ---- thread-count differential
     def _thread_differential(self, program, res):
@@ -760,6 +772,19 @@ class C15(Check):
 
     def _t_ns3d(self, p, res, rt):
         return self._t_ns(p, res, rt, 3)
+
+    def _t_large(self, p, res, rt):
+        """Size-gated wiring (memory-saving aliases, large-grid fast paths): one step on a production-sized
+        grid with the compiled kernels; the aliasing-transparency probes at every gen_* call site stay on."""
+        from .. import seams
+
+        saved = (irsim.SimKernel.runtime, seams.kernel_factory)
+        irsim.SimKernel.runtime, seams.kernel_factory = None, None
+        try:
+            self._t_ns(p, res, rt, p["dim"])
+        finally:
+            irsim.SimKernel.runtime, seams.kernel_factory = saved
+        res.probe("production_sized_grid_compiled_alias_probe")
 
     def _t_passive(self, p, res, rt):
         import sopht.simulator as sps
